@@ -129,6 +129,14 @@ func runC18Engine(word []string) string {
 				return fmt.Sprintf("op %d (%s): legal move rejected: %v", i+1, op, err)
 			}
 			changes, analyzing = true, false
+		case op == "shuffle":
+			_ = e.Reset(ctx, "k7/p7/P7/8/8/7p/7P/7K w - - 0 1")
+			for _, t := range []string{"h1g1", "a8b8", "g1h1", "b8a8", "h1g1", "a8b8", "g1h1", "b8a8"} {
+				if err := e.Move(ctx, t); err != nil {
+					return fmt.Sprintf("op %d (%s): %v", i+1, op, err)
+				}
+			}
+			changes, analyzing = true, false
 		case op == "takeback":
 			changes = e.TakeBack(ctx) == nil
 			analyzing = false
@@ -159,7 +167,7 @@ func runC18Engine(word []string) string {
 
 func checkC18(c *harness.Check) {
 	mustAnchors(c)
-	c.Rule = "sequential half of C18 (the concurrent half runs under the interleaving explorer): for every (root of the search corpus, depth, configuration of the 7 search configurations): (repeat) the same search twice on one Search value and once on a second one; (after) the search after every other root of the corpus / every pair was searched first on the same Search value; (seeds) Zobrist seeds 0,1,2,77,20260917 incl. roots whose history contains repetitions; (twins) every root that has a history right after / before its history-less twin (same position set up directly) on the same Search value; (noise) evaluation noise twice from the same seed - (score, PV, node count) must be identical. Engine operation words of length <= 4 over {reset F, move i, takeback, analyze d, halt}: Position() and the full Board() snapshot are unchanged by analyze/halt. distinct_nontrivial = distinct cases with depth >= 1"
+	c.Rule = "sequential half of C18 (the concurrent half runs under the interleaving explorer): for every (root of the search corpus, depth, configuration of the 7 search configurations): (repeat) the same search twice on one Search value and once on a second one; (after) the search after every other root of the corpus / every pair was searched first on the same Search value; (seeds) Zobrist seeds 0,1,2,77,20260917 incl. roots whose history contains repetitions; (twins) every root that has a history right after / before its history-less twin (same position set up directly) on the same Search value; (noise) evaluation noise twice from the same seed - (score, PV, node count) must be identical. Engine operation words of length <= 4 over {reset F (incl. a root one move from a fifty-move draw), shuffle into a three-fold, move i, takeback, analyze d, halt}: Position() and the full Board() snapshot are unchanged by analyze/halt. distinct_nontrivial = distinct cases with depth >= 1"
 	var cases []c18case
 	roots := searchRoots
 	for _, cfg := range searchCfgs {
@@ -220,7 +228,9 @@ func checkC18(c *harness.Check) {
 	c.Sample(cases[len(cases)/2])
 
 	// engine op words
-	alphabet := []string{"reset " + searchRoots[11].FEN, "reset r3k2r/8/8/8/8/8/8/R3K2R w KQkq - 3 9", "move0", "move3", "takeback", "analyze1", "analyze2", "halt"}
+	alphabet := []string{"reset " + searchRoots[11].FEN, "reset r3k2r/8/8/8/8/8/8/R3K2R w KQkq - 3 9", "move0", "move3", "takeback", "analyze1", "analyze2", "halt",
+		"reset k7/p7/P7/8/8/7p/7P/7K w - - 99 60", // one move away from a claimable fifty-move draw: the engine's own game is then drawn
+		"shuffle"} // h1g1 a8b8 g1h1 b8a8 twice on the fortress: a claimable three-fold in the engine's own game
 	var words [][]string
 	var gen func(w []string)
 	gen = func(w []string) {
